@@ -1,74 +1,151 @@
-"""C03 — compaction and out-of-order merge change no answer and are crash-atomic.
-Mode A: TLC checks specs/Replace.tla (the file replacement protocol and its recovery, crash between any
-two steps, second and third crash inside recovery) for Stable / LogResolvable and the ordering action
-properties, and confirms that the mutation seeds are caught. Mode B: Layout.tla behaviours are replayed
-into a real shard; reads are compared after every reorganisation (contents unchanged), and for every
-reorganisation a crash image is frozen after each of its file-system mutations, restored and re-opened
-(plus images taken inside the recovery of an image); the recovered contents must equal the contents
-before the reorganisation. Mode C: the recorded mutation order of every real reorganisation is validated
-by TLC against TraceReplace.tla."""
-import json, os, shutil, time
+"""C03 — compaction, out-of-order merge and down-sample replacement change no answer and are crash-atomic.
+Mode A: TLC checks
+  * specs/Replace.tla (the file replacement protocol of compaction / merge and its recovery: temporary files being
+    written, log, renames, deletes, log removal, crash between any two steps, second and third crash inside recovery),
+  * specs/ReplaceDS.tla (the second replace protocol: down-sample replacement with its own log, several measurements
+    under one log, forward-only recovery),
+  * specs/Layout.tla with the reorganisation actions (level compaction with the planner's grouping, per measurement and
+    per method; full compaction; merge; down-sample) for ReadEqLWW / OrderedDisjoint / ...,
+  and confirms that every mutation seed (Dev) of the three modules is caught.
+Mode B: Layout.tla behaviours (random, sparse, scripted, and scheduled multi-level / full / group-of-three / down-sample
+  sequences over two measurements, out-of-order rows scattered over several ordered files) are replayed into a real shard; reads are compared after every action; for every
+  reorganisation a crash image is frozen after each of its file-system mutations - the writes of the temporary files of
+  the compaction itself included, plus images with a half-written temporary file or log - restored and re-opened (for a
+  third of them a second generation of images is taken inside that recovery); the recovered contents must equal the
+  contents the protocol defines (before the reorganisation; for a down-sample: before it, or the aggregate once the log
+  was complete - never a mixture).
+Mode C: the recorded mutation order of every real reorganisation is validated by TLC against TraceReplace.tla."""
+import concurrent.futures as cf
+import json, os, random, shutil, time
 import vlib
+
+os.environ.setdefault("JAVA_TOOL_OPTIONS", "-Xmx3g")   # several JVMs run side by side on a shared machine
 
 PROP = "C03"
 TOLERATED = []   # cases whose harness process died with the signature of open finding F-C04-1 (c)
-DEVS = {'{"delete_old_before_log"}': "Stable", '{"delete_tail_first"}': "Stable"}
-DEVS_ORDER = {'{"skip_log"}': "LogBeforeRename", '{"rename_before_log"}': "LogBeforeRename"}
+
+# mutation seeds: module, cfg, deviation -> the invariants / properties one of which TLC must report
+REPLACE_DEVS = {"delete_old_before_log": ("Stable",), "delete_tail_first": ("Stable",),
+                "log_before_files_complete": ("NoTornVisible", "Stable")}
+REPLACE_ORDER_DEVS = {"skip_log": ("LogBeforeRename",), "rename_before_log": ("LogBeforeRename",)}
+REPLACEDS_DEVS = {"ds_log_before_files_complete": ("NoTornVisible", "Atomic"), "ds_rename_before_log": ("Atomic",),
+                  "ds_log_removed_early": ("Atomic",), "ds_bad_log_rolls_forward": ("Decided", "Atomic"),
+                  "ds_recovery_keeps_old": ("Atomic",)}
+LAYOUT_DEVS = {"stream_drops_late_column": ("ReadEqLWW",), "group_skips_one": ("OrderedDisjoint", "ReadEqLWW"),
+               "merge_ordered_wins": ("ReadEqLWW",), "compact_drops_newer": ("ReadEqLWW",),
+               "ds_shared_window": ("OrderedDisjoint", "ReadEqLWW"), "ds_window_end_inclusive": ("ReadEqLWW",)}
+
+REORG = ("LevelCompact", "FullCompact", "MergeOOO", "DownSample")
 
 
-def mode_a():
-    r = vlib.run_tlc("Replace", "Replace.exh.cfg", timeout=1200)
-    vlib.tlc_must_pass(r, "Replace.exh.cfg")
-    stats = {"cfg": "Replace.exh.cfg", "generated": r["generated"], "distinct": r["distinct"], "depth": r["depth"]}
-    base = open(os.path.join(vlib.SPECS, "cfg", "Replace.exh.cfg")).read()
-    tmp = vlib.scratch("c03cfg")
-    caught = {}
-    try:
-        for dev, inv in list(DEVS.items()) + list(DEVS_ORDER.items()):
-            p = os.path.join(tmp, "dev.cfg")
-            txt = base.replace("Dev = {}", "Dev = " + dev)
-            if dev in DEVS:   # judge the state invariant alone
-                txt = "\n".join(l for l in txt.splitlines() if not l.startswith("PROPERTIES")) + "\n"
-            open(p, "w").write(txt)
-            rr = vlib.run_tlc("Replace", p, timeout=600)
-            if rr["violated"] != inv:
-                raise vlib.Infra(f"deviation {dev} should violate {inv} in Replace.tla, TLC says {rr['violated']} / {rr['error']}")
-            caught[dev] = inv
-    finally:
-        shutil.rmtree(tmp, ignore_errors=True)
+def _dev_cfg(tmp, base_cfg, dev, drop_properties):
+    txt = open(os.path.join(vlib.SPECS, "cfg", base_cfg)).read().replace("Dev = {}", 'Dev = {"%s"}' % dev)
+    if drop_properties:   # judge the state invariants alone
+        txt = "\n".join(l for l in txt.splitlines() if not l.startswith("PROPERTIES")) + "\n"
+    p = os.path.join(tmp, "%s.%s.cfg" % (base_cfg, dev))
+    open(p, "w").write(txt)
+    return p
+
+
+def _dev_job(tmp, module, base_cfg, dev, wanted, drop_properties):
+    rr = vlib.run_tlc(module, _dev_cfg(tmp, base_cfg, dev, drop_properties), workers=2, timeout=900)
+    if rr["violated"] not in wanted:
+        raise vlib.Infra(f"deviation {dev} should violate one of {wanted} in {module}, TLC says {rr['violated']} / {rr['error']}\n" + rr["out"][-1500:])
+    return dev, rr["violated"]
+
+
+def mode_a_jobs(pool, tier, tmp):
+    """submit the Mode A runs; returns {name: future}"""
+    jobs = {}
+    jobs["Replace.exh.cfg"] = pool.submit(vlib.run_tlc, "Replace", "Replace.exh.cfg", 2, None, None, None, 1200)
+    jobs["ReplaceDS.exh.cfg"] = pool.submit(vlib.run_tlc, "ReplaceDS", "ReplaceDS.exh.cfg", 2, None, None, None, 1200)
+    lcfg = "Layout.exh.reorg.quick.cfg" if tier == "quick" else "Layout.exh.reorg.thorough.cfg"
+    jobs[lcfg] = pool.submit(vlib.run_tlc, "LayoutMC", lcfg, 6 if tier == "quick" else 12, None, None, None, 3000)
+    for dev, w in REPLACE_DEVS.items():
+        jobs["dev:" + dev] = pool.submit(_dev_job, tmp, "Replace", "Replace.exh.cfg", dev, w, True)
+    for dev, w in REPLACE_ORDER_DEVS.items():
+        jobs["dev:" + dev] = pool.submit(_dev_job, tmp, "Replace", "Replace.exh.cfg", dev, w, False)
+    for dev, w in REPLACEDS_DEVS.items():
+        jobs["dev:" + dev] = pool.submit(_dev_job, tmp, "ReplaceDS", "ReplaceDS.exh.cfg", dev, w, True)
+    for dev, w in LAYOUT_DEVS.items():
+        jobs["dev:" + dev] = pool.submit(_dev_job, tmp, "LayoutMC", "Layout.dev.reorg.cfg", dev, w, True)
+    return jobs
+
+
+def mode_a_collect(jobs):
+    stats, caught = {"runs": []}, {}
+    for name, fut in jobs.items():
+        r = fut.result()
+        if name.startswith("dev:"):
+            caught[r[0]] = r[1]
+            continue
+        vlib.tlc_must_pass(r, name)
+        stats["runs"].append({"cfg": name, "generated": r["generated"], "distinct": r["distinct"], "depth": r["depth"],
+                              "wall_s": round(r["wall_s"], 1)})
     stats["deviations_caught"] = caught
+    stats["generated"] = sum(x["generated"] for x in stats["runs"])
+    stats["distinct"] = sum(x["distinct"] for x in stats["runs"])
     return stats
 
 
-def gen(tier, seed):
-    nsim = 60 if tier == "quick" else 700
-    r = vlib.run_tlc("LayoutMC", "Layout.sim.cfg", simulate=nsim, depth=18, seed=seed + 1000, timeout=3000)
-    vlib.tlc_must_pass(r, "Layout.sim.cfg")
-    r2 = vlib.run_tlc("LayoutMC", "Layout.sim.sparse.cfg", simulate=nsim, depth=18, seed=seed + 2000, timeout=3000)
-    vlib.tlc_must_pass(r2, "Layout.sim.sparse.cfg")
-    reorg = ("LevelCompact", "FullCompact", "MergeOOO")
-    hs2 = [h for h in r2["traces"] if any(e["a"] in ("LevelCompact", "FullCompact") for e in h)]
-    hs2.sort(key=lambda h: -sum(1 for e in h if e["a"] in ("LevelCompact", "FullCompact")))
-    hs = [h for h in r["traces"] if any(e["a"] in reorg for e in h)]
-    # prefer behaviours with several kinds of reorganisation
-    hs.sort(key=lambda h: -len({e["a"] for e in h if e["a"] in reorg}))
-    # scripted writes (files of different schema with several segments) x every placement of reorganisations
-    r3 = vlib.run_tlc("LayoutMC", "Layout.bfs.script.cfg", workers=4, timeout=1200)
-    vlib.tlc_must_pass(r3, "Layout.bfs.script.cfg")
-    hs3 = [h for h in r3["traces"] if any(e["a"] in ("LevelCompact", "FullCompact") for e in h)
-           and sum(1 for e in h if e["a"] == "Write") >= 2]
-    import random
+# generators: (cfg, simulated traces quick/thorough (None = BFS), behaviours replayed quick/thorough, depth)
+GENERATORS = [
+    ("Layout.c03.sim.cfg",       (40, 400),  (9, 80), 18),
+    ("Layout.c03.sparse.cfg",    (40, 400),  (9, 80), 18),
+    ("Layout.c03.script.cfg",    None,       (12, 120), None),
+    ("Layout.sched.levels.cfg",  (20, 300),  (7, 60), 20),
+    ("Layout.sched.group3.cfg",  (20, 200),  (6, 40), 20),
+    ("Layout.sched.full.cfg",    (20, 200),  (5, 40), 20),
+    ("Layout.sched.merge.cfg",   (20, 200),  (6, 40), 20),
+    ("Layout.sched.ds1.cfg",     (20, 200),  (5, 40), 20),
+    ("Layout.sched.ds2.cfg",     (20, 200),  (5, 40), 20),
+    ("Layout.sched.ds3.cfg",     (20, 200),  (5, 40), 20),
+    ("Layout.sched.dsdense.cfg", (12, 120),  (4, 24), 20),
+]
+
+
+def _gen_job(cfg, nsim, depth, seed):
+    if nsim is None:
+        r = vlib.run_tlc("LayoutMC", cfg, workers=2, timeout=1200)
+    else:
+        r = vlib.run_tlc("LayoutMC", cfg, simulate=nsim, depth=depth, seed=seed, timeout=3000)
+    vlib.tlc_must_pass(r, cfg)
+    return r
+
+
+def nreorg(h):
+    return sum(1 for e in h if e["a"] in REORG)
+
+
+def gen(pool, tier, seed):
+    ti = 0 if tier == "quick" else 1
+    futs = []
+    for k, (cfg, nsim, nrep, depth) in enumerate(GENERATORS):
+        futs.append(pool.submit(_gen_job, cfg, None if nsim is None else nsim[ti], depth, seed + 1000 * (k + 1)))
     rnd = random.Random(seed)
-    rnd.shuffle(hs3)
-    limit = 48 if tier == "quick" else 800
-    out = hs[:limit] + hs2[:limit] + hs3[:(96 if tier == "quick" else 10 ** 6)]
-    return out, {"generated": r["generated"] + r2["generated"], "traces": len(r["traces"]) + len(r2["traces"]),
-                 "with_reorg": len(hs), "sparse_with_compaction": len(hs2), "scripted": len(hs3)}
+    out, stats = [], {"generated": 0, "per_generator": {}}
+    for (cfg, nsim, nrep, depth), fut in zip(GENERATORS, futs):
+        r = fut.result()
+        hs = [h for h in r["traces"] if nreorg(h) > 0]
+        if cfg == "Layout.c03.script.cfg":
+            hs = [h for h in hs if sum(1 for e in h if e["a"] == "Write") >= 2 and any(e["a"] in ("LevelCompact", "FullCompact") for e in h)]
+        # distinct behaviours only, the richest first (several kinds of reorganisation, then many of them), ties shuffled
+        uniq = {json.dumps(h, sort_keys=True): h for h in hs}
+        hs = list(uniq.values())
+        rnd.shuffle(hs)
+        hs.sort(key=lambda h: (-len({e["a"] for e in h if e["a"] in REORG}), -nreorg(h)))
+        if cfg == "Layout.c03.script.cfg":
+            rnd.shuffle(hs)
+        take = hs[:nrep[ti]]
+        out += [(cfg, h) for h in take]
+        stats["generated"] += r["generated"]
+        stats["per_generator"][cfg] = {"generated": r["generated"], "traces": len(r["traces"]), "with_reorg": len(hs), "replayed": len(take)}
+    return out, stats
 
 
 def replay_cases(cases):
     vh = vlib.build_vh()
-    results, errs, tol = vlib.run_vh_parallel(vh, ["replay-layout"], cases, tolerate=vlib.f_c04_1_death)
+    results, errs, tol = vlib.run_vh_parallel(vh, ["replay-layout"], cases, tolerate=vlib.f_c04_1_death, timeout=3000)
     TOLERATED.extend(tol)
     if errs:
         raise vlib.Infra(f"harness process failed: {errs[0]}")
@@ -78,17 +155,31 @@ def replay_cases(cases):
 
 
 def trace_lines(tev):
-    nnew = sum(1 for e in tev if e["ev"] == "WriteNew")
-    has_log = any(e["ev"] == "LogCreate" for e in tev)
-    dels = [i for i, e in enumerate(tev) if e["ev"] == "DeleteOld"]
-    lr = [i for i, e in enumerate(tev) if e["ev"] == "LogRemove"]
-    if not has_log or not lr:
-        return None  # aborted / empty reorganisation (new files written and withdrawn): not a replacement
-    nold = sum(1 for i in dels if i < lr[0])
-    ntail = sum(1 for i in dels if i > lr[0])
-    out = [{"ev": "Reset", "nold": nold, "nnew": nnew, "ntail": ntail}]
-    out += [{"ev": e["ev"]} for e in tev]
-    return out
+    """one recorded reorganisation -> list of TraceReplace.tla runs: one per replacement (= per log) for compaction / merge
+    (the groups of a level compaction and the measurements of a merge are replaced concurrently, each under its own log;
+    the harness attributes every event to the log that names its file), one for a down-sample (one log for all)"""
+    proto = tev[0].get("proto", "compact") if tev and tev[0]["ev"] == "Proto" else "compact"
+    evs = [e for e in tev if e["ev"] != "Proto"]
+    groups = {}
+    if proto == "ds":
+        groups["*"] = evs
+    else:
+        for e in evs:
+            groups.setdefault(e.get("g") or "", []).append(e)
+    runs = []
+    for m, g in groups.items():
+        has_log = any(e["ev"] == "LogCreate" for e in g)
+        lr = [i for i, e in enumerate(g) if e["ev"] == "LogRemove"]
+        if not has_log or not lr:
+            runs.append(None)   # aborted / empty reorganisation (new files written and withdrawn): not a replacement
+            continue
+        dels = [i for i, e in enumerate(g) if e["ev"] == "DeleteOld"]
+        nold = sum(1 for i in dels if i < lr[0])
+        ntail = sum(1 for i in dels if i > lr[0])
+        lines = [{"ev": "Reset", "nold": nold, "ntail": ntail, "proto": proto, "f": ""}]
+        lines += [{"ev": e["ev"], "f": e.get("f", "")} for e in g]
+        runs.append(lines)
+    return runs
 
 
 def validate(runs):
@@ -99,7 +190,7 @@ def validate(runs):
             for lines in runs:
                 for x in lines:
                     f.write(json.dumps(x) + "\n")
-        r = vlib.run_tlc("TraceReplace", "TraceReplace.cfg", workers=1, timeout=1200, copy_files=[tp], depth_first=True)
+        r = vlib.run_tlc("TraceReplace", "TraceReplace.cfg", workers=1, timeout=2400, copy_files=[tp], depth_first=True)
         if r.get("timeout") or r["error"]:
             raise vlib.Infra(f"trace validation did not run: {r['error']}\n" + r["out"][-2000:])
         return r["violated"] is None, r
@@ -110,77 +201,200 @@ def validate(runs):
 def mode_c(results):
     runs, owners = [], []
     skipped = 0
+    protos = {"compact": 0, "ds": 0}
     for r in results:
         for tev in r.get("tev") or []:
-            lines = trace_lines(tev)
-            if lines is None:
-                skipped += 1
-                continue
-            runs.append(lines)
-            owners.append((r, tev))
-    stats = {"reorganisations": len(runs), "events": sum(len(x) - 1 for x in runs), "not_replacements": skipped}
+            for lines in trace_lines(tev):
+                if lines is None:
+                    skipped += 1
+                    continue
+                runs.append(lines)
+                owners.append((r, tev))
+                protos[lines[0]["proto"]] += 1
+    stats = {"replacements": len(runs), "events": sum(len(x) - 1 for x in runs), "not_replacements": skipped, "per_protocol": protos}
     rejected = []
     if runs:
         ok, t = validate(runs)
         stats["tlc_states"] = t["distinct"]
-        if not ok:
-            for lines, (r, tev) in zip(runs, owners):
+        # offenders are located by bisection (one TLC run per halving), at most three of them
+        pending = [] if ok else [list(range(len(runs)))]
+        while pending and len(rejected) < 3:
+            idx = pending.pop()
+            if len(idx) == 1:
+                lines, (r, tev) = runs[idx[0]], owners[idx[0]]
                 ok1, t1 = validate([lines])
                 if not ok1:
                     r2 = dict(r)
                     r2["ok"] = False
                     r2["detail"] = ("file-system mutation order of a real reorganisation is not a behaviour of the replacement protocol "
-                                    f"(Replace.tla; matched a prefix of {t1['distinct'] - 1} events): " + json.dumps([e['ev'] for e in tev]))
+                                    f"(Replace.tla / ReplaceDS.tla; matched a prefix of {t1['distinct'] - 1} events): " + json.dumps([e['ev'] for e in lines[1:]]))
                     rejected.append(r2)
+                continue
+            half = len(idx) // 2
+            for part in (idx[half:], idx[:half]):
+                okp, _ = validate([runs[i] for i in part])
+                if not okp:
+                    pending.append(part)
     return stats, rejected
+
+
+def probes():
+    """directed reproductions of open findings of this property: selftest/histories/c03-*.probe.json"""
+    d = os.path.join(vlib.ROOT, "selftest", "histories")
+    out = []
+    if os.path.isdir(d):
+        for fn in sorted(os.listdir(d)):
+            if fn.startswith("c03-") and fn.endswith(".probe.json"):
+                out.append((fn, json.load(open(os.path.join(d, fn)))))
+    return out
+
+
+def scheduler_probe():
+    """directed reproduction of F-C03-2 (liveness): level compaction after reorganisations were paused and resumed"""
+    vh = vlib.build_vh()
+    p = vlib.run_vh(vh, ["probe-compaction-after-disable"], timeout=600)
+    obj = None
+    for line in p.stdout.splitlines():
+        if line.startswith("{"):
+            obj = json.loads(line)
+    if p.returncode != 0 or obj is None:
+        raise vlib.Infra("probe-compaction-after-disable failed: " + p.stderr[-1500:])
+    a, b = obj["files_after_compaction"], obj["files_after_pause_resume_and_compaction"]
+    if a != 1:
+        raise vlib.Infra(f"level compaction does not merge two level-0 files on a fresh shard ({obj}): reorganisations cannot be exercised")
+    if b == 2:
+        if "F-C03-2" in {f["id"] for f in vlib.load_known(PROP)}:
+            print(f"KNOWN-FINDING: property={PROP} F-C03-2 re-observed: after shard.DisableCompAndMerge / EnableCompAndMerge a level compaction "
+                  f"no longer runs (the store's compaction scheduler stays closed): {obj}")
+            return "reproduced"
+        raise vlib.Infra(f"compaction scheduler dead after pause/resume ({obj}) and F-C03-2 is not listed as open")
+    vlib.log(f"[c03] F-C03-2 no longer reproduces: {obj}")
+    return "not reproduced"
+
+
+def sumdict(results, key):
+    tot = {}
+    for r in results:
+        for k, v in (r.get(key) or {}).items():
+            tot[k] = tot.get(k, 0) + v
+    return dict(sorted(tot.items()))
 
 
 def run(tier, seed):
     t0 = time.time()
-    a = mode_a()
-    hists, g = gen(tier, seed)
-    if not hists:
-        raise vlib.Infra("no behaviours with reorganisations generated")
-    cases = [{"id": i, "seed": seed, "hist": h, "crash": True} for i, h in enumerate(hists)]
-    results = replay_cases(cases)
+    tmp = vlib.scratch("c03cfg")
+    pool = cf.ThreadPoolExecutor(4)
+    try:
+        # the replay waits for the generators only; the Mode A runs go on during the replay
+        with cf.ThreadPoolExecutor(4) as gpool:
+            gf = gpool.submit(gen, gpool, tier, seed)
+            jobs = mode_a_jobs(pool, tier, tmp)
+            tagged, g = gf.result()
+        vlib.log(f"[c03] {len(tagged)} behaviours generated after {time.time()-t0:.0f}s")
+        if not tagged:
+            raise vlib.Infra("no behaviours with reorganisations generated")
+        hists = [h for _, h in tagged]
+        cases = [{"id": i, "seed": seed, "hist": h, "crash": True} for i, h in enumerate(hists)]
+        open_ids = {f["id"] for f in vlib.load_known(PROP)}
+        pcases = []
+        for fn, p in probes():
+            c = dict(p["case"])
+            c["id"] = len(cases) + len(pcases)
+            c["seed"] = p["case"].get("seed", 1)
+            pcases.append((fn, p, c))
+        sched = scheduler_probe()
+        results = replay_cases(cases + [c for _, _, c in pcases])
+        vlib.log(f"[c03] replay done after {time.time()-t0:.0f}s")
+        a = mode_a_collect(jobs)
+        vlib.log(f"[c03] Mode A done after {time.time()-t0:.0f}s")
+    finally:
+        pool.shutdown(wait=True, cancel_futures=True)
+        shutil.rmtree(tmp, ignore_errors=True)
     infra = [r for r in results if r.get("infra")]
     if infra:
         raise vlib.Infra(f"harness infra error: {infra[0]}")
     if TOLERATED:
         print(f"KNOWN-FINDING: property={PROP} F-C04-1 the store process died {len(TOLERATED)} times at close with an unbalanced tsspFile reference count "
               f"(negative WaitGroup counter / close blocked in wg.Wait); those cases are not judged")
-    bad = [r for r in results if not r["ok"]]
-    cstats, rejected = mode_c(results)
+    byres = {r["id"]: r for r in results}
+    probe_ids = {c["id"] for _, _, c in pcases}
+    probe_stats = {"probe-compaction-after-disable": sched}
+    bad = []
+    for fn, p, c in pcases:
+        r = byres.get(c["id"])
+        if r is None:
+            continue
+        fid = p["finding"]
+        if r.get("known") == fid and fid in open_ids:
+            print(f"KNOWN-FINDING: property={PROP} {fid} re-observed by the directed reproduction {fn}: {r['detail'][:400]}")
+            probe_stats[fn] = "reproduced"
+        elif r["ok"] and not r.get("known"):
+            vlib.log(f"[c03] directed reproduction {fn}: the real contents equal the specification ({fid} no longer reproduces)")
+            probe_stats[fn] = "not reproduced (contents equal the specification)"
+        else:
+            r["ok"] = False
+            bad.append(r)
+            probe_stats[fn] = "other divergence"
+    main = [r for r in results if r["id"] not in probe_ids]
+    for r in main:
+        if r.get("known"):    # behaviours of the generators are never attributed to a finding here
+            r["ok"] = False
+    bad += [r for r in main if not r["ok"]]
+    cstats, rejected = mode_c(main)
+    vlib.log(f"[c03] Mode C done after {time.time()-t0:.0f}s")
     bad += rejected
-    byid = {c["id"]: c for c in cases}
+    byid = {c["id"]: c for c in cases + [c for _, _, c in pcases]}
     for r in bad[:5]:
         path = vlib.save_replay(PROP, {"case": byid[r["id"]], "result": {k: v for k, v in r.items() if k != "tev"}})
         print(f"VIOLATION property={PROP} replay={path}")
         vlib.log(r.get("detail", ""))
-    images = sum(r.get("images", 0) for r in results)
-    reorgs = sum(r.get("reorgs", 0) for r in results)
-    if reorgs == 0:
-        raise vlib.Infra("no real reorganisation replaced any file: the run is vacuous")
+    tot = lambda k: sum(r.get(k, 0) for r in main)
+    images, nested, reorgs = tot("images"), tot("nested"), tot("reorgs")
+    kinds, methods, levels = sumdict(main, "kinds"), sumdict(main, "methods"), sumdict(main, "to_levels")
+    groups, msts = sumdict(main, "groups"), sumdict(main, "msts")
+    if not bad:
+        # vacuity guards: every path the check claims must have been exercised by real reorganisations
+        need = [(reorgs > 0, "no real reorganisation replaced any file"),
+                (all(kinds.get(k, 0) > 0 for k in REORG), f"a kind of reorganisation was never exercised: {kinds}"),
+                (methods.get("stream", 0) > 0 and methods.get("nonstream", 0) > 0, f"a compaction method was never exercised: {methods}"),
+                (levels.get("L1", 0) > 0 and levels.get("L2", 0) > 0, f"no multi-level compaction sequence (level 0 -> 1 -> 2): {levels}"),
+                (groups.get("2", 0) > 0 and groups.get("3", 0) > 0, f"a planner group size was never exercised: {groups}"),
+                (msts.get("2", 0) > 0, f"no reorganisation touched two measurements at once: {msts}"),
+                (tot("prewrite") > 0, "no crash image inside the writing of the temporary files"),
+                (tot("torn") > 0, "no crash image with a half-written temporary file or log"),
+                (nested > 0, "no second crash inside recovery"),
+                (tot("ds_pre") > 0 and tot("ds_post") > 0, "down-sample crash images on one side of the log only")]
+        for ok, msg in need:
+            if not ok:
+                raise vlib.Infra("the run is vacuous: " + msg)
     cov = {
         "states": a["distinct"], "transitions": a["generated"],
-        "traces_validated_against_impl": len(results),
+        "traces_validated_against_impl": len(main),
         "samples": [hists[0]],
-        "evaluations": images + sum(r.get("nested", 0) for r in results),
+        "evaluations": images + nested,
         "distinct_nontrivial": images,
-        "rule": "one evaluation = a crash image frozen after one file-system mutation of a real compaction/merge (or inside the "
-                "recovery of such an image), restored, re-opened and fully read; distinct_nontrivial = first-level images",
+        "rule": "one evaluation = a crash image frozen after (or, for a half-written file, inside) one file-system mutation of a real "
+                "compaction / merge / down-sample, or inside the recovery of such an image, restored, re-opened and fully read; "
+                "distinct_nontrivial = first-level images",
         "behaviours": len(hists), "real_reorganisations": reorgs, "crash_images": images,
-        "nested_recovery_images": sum(r.get("nested", 0) for r in results),
-        "reads_compared": sum(r.get("reads", 0) for r in results),
-        "index_inconclusive": sum(r.get("index_inconclusive", 0) for r in results),
+        "nested_recovery_images": nested,
+        "images_while_writing_temporary_files": tot("prewrite"), "images_with_half_written_file": tot("torn"),
+        "downsample_images_expect_raw": tot("ds_pre"), "downsample_images_expect_aggregate": tot("ds_post"),
+        "reorganisations_per_kind": kinds, "compactions_per_method": methods, "compactions_per_output_level": levels,
+        "level_compactions_per_group_size": groups, "replacements_per_measurements_touched": msts,
+        "reads_compared": tot("reads"), "skipped_schedule_steps": tot("skips"), "shape_drift_steps": tot("drift"),
+        "index_inconclusive": tot("index_inconclusive"),
         "trace_validation": cstats,
+        "directed_reproductions": probe_stats,
         "tlc": {"exhaustive": a, "generator": g},
         "exhaustive": False,
     }
     vlib.write_evidence(PROP, tier, seed, "model_checking", cov, time.time() - t0, len(bad), [
-        "process-kill semantics (the directory tree at the crash instant is the image)",
-        "plans are those the real planner picks on the prepared layouts (group size 2) plus forced full compaction / merge",
-        "max-rows-per-segment in {default, 2, 3, 5}",
+        "process-kill semantics (the directory tree at the crash instant is the image; a write may be cut short)",
+        "plans are those the real planner picks on the prepared layouts (group size 2 or 3 through LeveLMinGroupFiles) plus forced full compaction / merge",
+        "max-rows-per-segment in {default, 2, 3, 5}; a down-sample of sparse columns only with single-segment chunks (open finding F-C03-3)",
+        "down-sample: level 1 of a shard without out-of-order files whose files share no window per series; aggregates first/last/min/max/count",
+        "the compaction scheduler is kept alive by switching reorganisations with the store's enable flags (open finding F-C03-2)",
     ])
     return 1 if bad else 0
 
@@ -192,7 +406,7 @@ def replay(path, seed):
     _, rej = mode_c(res)
     if rej:
         r = rej[0]
-    if not r["ok"]:
+    if not r["ok"] or r.get("known"):
         print(f"VIOLATION property={PROP} replay={path}")
         vlib.log(r["detail"])
         return 1
